@@ -61,12 +61,14 @@ ASSUMPTIONS = [
     "models follow the documented modelling rules: only Optional unions, non-optional non-nested collections, single "
     "inheritance with every base mapped, no defaults needed; field names are not generated column names (`*_id`, "
     "`polymorphic_type`) nor members of DataAccessObject / DeclarativeBase",
-    "all classes and enums of one model live in one module",
+    "the classes of one model live in one module or in 2-3 modules of one directory (enums then in their own module); a "
+    "subclass never lives in a lower-numbered module than its base",
 ]
 RULE = ("random models over the grammar of the property text (1-6 dataclasses; scalars, Optional scalars, enums, "
         "datetimes, lists of builtins, (Optional) references, collections, single and multi-level inheritance, self and "
         "mutual references, several collections of one target, overridden fields, private fields, shuffled declaration "
-        "and registration order, with/without `from __future__ import annotations`), each generated, imported, "
+        "and registration order, with/without `from __future__ import annotations`; every third model and a fixed family "
+        "spread over 2-3 modules whose cross-module names are visible under TYPE_CHECKING only), each generated, imported, "
         "configured, created and inspected in a fresh subprocess and regenerated under another PYTHONHASHSEED and class "
         "order; non-trivial = at least two classes or at least three mapped fields; distinct by case text")
 
@@ -112,12 +114,19 @@ def parse_case(line: str) -> dict:
             d["fut"] = it[1] == "T"
         elif it[0] in ("ord", "ord2", "enums"):
             d[it[0]] = list(it[1:])
+        elif it[0] == "split":
+            d["split_real"] = it[1] == "R"
+            d["split"] = [int(x) for x in it[2:]]
         elif it[0] == "c":
             fields = []
             for f in it[3:]:
                 fields.append((f[0], f[1], f[2] if len(f) > 2 else None))
             d["classes"].append({"name": it[1], "base": None if it[2] == "-" else it[2], "fields": fields})
     names = [c["name"] for c in d["classes"]]
+    parts = d.pop("split", None) or []
+    for i, c in enumerate(d["classes"]):
+        c["part"] = parts[i] if i < len(parts) else 0
+    d.setdefault("split_real", False)
     if not d["ord"]:
         d["ord"] = list(names)
     if not d["ord2"]:
@@ -131,6 +140,11 @@ def show_case(d: dict) -> str:
     for c in d["classes"]:
         fs = "".join(" (%s %s%s)" % (n, k, "" if a is None else " " + a) for n, k, a in c["fields"])
         parts.append("(c %s %s%s)" % (c["name"], c["base"] or "-", fs))
+    if any(c.get("part", 0) for c in d["classes"]):
+        # source layout only (the Lean driver ignores it): module index of every class, `R` = references to classes of
+        # lower-numbered modules are imported for real, `T` = every cross-module reference is TYPE_CHECKING-only
+        parts.append("(split %s %s)" % ("R" if d.get("split_real") else "T",
+                                        " ".join(str(c.get("part", 0)) for c in d["classes"])))
     return "(m " + " ".join(parts) + ")"
 
 
@@ -183,6 +197,67 @@ def render_module(d: dict) -> str:
         declared.add(c["name"])
         out += ["", ""]
     return "\n".join(out)
+
+
+def is_split(d: dict) -> bool:
+    return any(c.get("part", 0) for c in d["classes"])
+
+
+def render_sources(d: dict, mod: str):
+    """(files, where): file name -> source text, class name -> module name.
+
+    One module unless the case has a `split`: then the classes live in modules `<mod>_p<i>` (enums in `<mod>_en`), every
+    module uses `from __future__ import annotations`, a base class of another module is imported for real (a subclass
+    never lives in a lower-numbered module than its base, so real imports are acyclic) and every other cross-module
+    name is imported under `if TYPE_CHECKING:` only — the usual way to write mutually referencing dataclasses in
+    several modules."""
+    if not is_split(d):
+        return {mod + ".py": render_module(d)}, {c["name"]: mod for c in d["classes"]}
+    where = {c["name"]: "%s_p%d" % (mod, c["part"]) for c in d["classes"]}
+    part_of = {c["name"]: c["part"] for c in d["classes"]}
+    files = {}
+    if d["enums"]:
+        out = ["from enum import Enum", "", ""]
+        for e in d["enums"]:
+            out += ["class %s(Enum):" % e, "    FIRST = 1", "    SECOND = 2", "", ""]
+        files[mod + "_en.py"] = "\n".join(out)
+    for part in sorted(set(part_of.values())):
+        mine = [c for c in d["classes"] if c["part"] == part]
+        real, lazy = set(), set()
+        for c in mine:
+            if c["base"] and part_of.get(c["base"], part) != part:
+                real.add(c["base"])
+        for c in mine:
+            for _, k, a in c["fields"]:
+                if k in ("r", "or", "l") and a in part_of and part_of[a] != part and a not in real:
+                    if d.get("split_real") and part_of[a] < part:
+                        real.add(a)
+                    else:
+                        lazy.add(a)
+        lazy -= real
+        out = ["from __future__ import annotations", "from dataclasses import dataclass", "from datetime import datetime",
+               "from typing import TYPE_CHECKING", "from typing_extensions import List, Optional"]
+        used_enums = sorted({a for c in mine for _, k, a in c["fields"] if k in ("e", "oe")})
+        if used_enums:
+            out.append("from %s_en import %s" % (mod, ", ".join(used_enums)))
+        for n in sorted(real):
+            out.append("from %s import %s" % (where[n], n))
+        if lazy:
+            out.append("")
+            out.append("if TYPE_CHECKING:")
+            for n in sorted(lazy):
+                out.append("    from %s import %s" % (where[n], n))
+        out += ["", ""]
+        for c in mine:
+            out.append("@dataclass")
+            out.append("class %s%s:" % (c["name"], "(%s)" % c["base"] if c["base"] else ""))
+            if not c["fields"]:
+                out.append("    pass")
+            for n, k, a in c["fields"]:
+                out.append("    %s: %s" % (n, _annotation(k, a, True, set())))
+            out += ["", ""]
+        files["%s_p%d.py" % (mod, part)] = "\n".join(out)
+    return files, where
 
 
 # ------------------------------------------------------------------------------------------------ ground truth
@@ -266,13 +341,12 @@ def _exc_kind(e: BaseException) -> str:
     return {"DuplicateColumnError": "dupcol", "MappedAnnotationError": "unresolved"}.get(n, n)
 
 
-def _generate(modname: str, order, out_path: str) -> str:
+def _generate(where: dict, order, out_path: str) -> str:
     import importlib
     from krrood.class_diagrams.class_diagram import ClassDiagram
     from krrood.ormatic.ormatic import ORMatic
 
-    m = importlib.import_module(modname)
-    o = ORMatic(ClassDiagram([getattr(m, c) for c in order]))
+    o = ORMatic(ClassDiagram([getattr(importlib.import_module(where[c]), c) for c in order]))
     o.make_all_tables()
     with open(out_path, "w") as f:
         o.to_sqlalchemy_file(f)
@@ -368,9 +442,10 @@ def _worker_main(jobfile: str) -> None:
             return
         d = job["case"]
         mod = job["module"]
+        where = job["where"]
         if job["mode"] == "full":
             try:
-                text = _generate(mod, d["ord"], os.path.join(job["dir"], mod + "_orm.py"))
+                text = _generate(where, d["ord"], os.path.join(job["dir"], mod + "_orm.py"))
             except Exception as e:  # noqa: BLE001
                 res["fail"] = "gen:" + _exc_kind(e)
                 res["detail"] = str(e)[:300]
@@ -388,9 +463,9 @@ def _worker_main(jobfile: str) -> None:
             res.update(_inspect(g, d))
         else:
             try:
-                t1 = _generate(mod, d["ord"], os.path.join(job["dir"], mod + "_orm_b.py"))
+                t1 = _generate(where, d["ord"], os.path.join(job["dir"], mod + "_orm_b.py"))
                 res["sha"] = hashlib.sha1(t1.encode()).hexdigest()
-                t2 = _generate(mod, d["ord2"], os.path.join(job["dir"], mod + "_orm_c.py"))
+                t2 = _generate(where, d["ord2"], os.path.join(job["dir"], mod + "_orm_c.py"))
                 res["blocks"] = _blocks(t2)
             except Exception as e:  # noqa: BLE001
                 res["fail"] = "gen:" + _exc_kind(e)
@@ -429,8 +504,10 @@ def _observe(d: dict, line: str) -> str:
     tmp = tempfile.mkdtemp(prefix="krrood_c06_")
     try:
         mod = "c06m_" + hashlib.sha1(line.encode()).hexdigest()[:10]
-        Path(tmp, mod + ".py").write_text(render_module(d))
-        job = {"dir": tmp, "src": str(REPO / "src"), "module": mod, "case": d, "mode": "full"}
+        files, where = render_sources(d, mod)
+        for fn, text in files.items():
+            Path(tmp, fn).write_text(text)
+        job = {"dir": tmp, "src": str(REPO / "src"), "module": mod, "where": where, "case": d, "mode": "full"}
         Path(tmp, "job1.json").write_text(json.dumps(job))
         r1 = _spawn(os.path.join(tmp, "job1.json"), "11")
         if str(r1.get("fail", "")).startswith("harness:"):  # the worker itself broke: once more, then give up
@@ -627,17 +704,81 @@ SHAPES = ["plain", "plain", "plain", "deep", "mutual", "multi-coll", "self-ref",
           "plain", "self-coll"]
 
 
+def _assign_parts(rng, d: dict) -> None:
+    """spread the classes of a model over 2-3 modules (a subclass never below its base) and make sure some class
+    refers to classes of other modules"""
+    classes = d["classes"]
+    nparts = 2 if len(classes) < 4 or rng.random() < 0.6 else 3
+    by = {c["name"]: c for c in classes}
+    for c in classes:  # declaration order: bases first
+        lo = by[c["base"]]["part"] if c["base"] in by else 0
+        c["part"] = rng.randrange(lo, nparts)
+    if not any(c["part"] for c in classes):
+        leaves = [c for c in classes if not any(x["base"] == c["name"] for x in classes)]
+        rng.choice(leaves)["part"] = 1
+    if len({c["part"] for c in classes}) == 1:
+        classes[0]["part"] = 0  # the first declared class is a root
+    d["split_real"] = rng.random() < 0.4
+    d["fut"] = True
+    # half of the layouts get a class that names two classes of other modules (if it has none yet)
+    def foreign(c):
+        return {a for _, k, a in c["fields"] if k in ("r", "or", "l") and by[a]["part"] != c["part"]}
+    if rng.random() < 0.5 and not any(len(foreign(c)) >= 2 for c in classes):
+        cands = [c for c in classes if len([x for x in classes if x["part"] != c["part"]]) >= 2]
+        if cands:
+            c = rng.choice(cands)
+            x, y = rng.sample([x for x in classes if x["part"] != c["part"]], 2)
+            c["fields"].append(("remote", rng.choice(["r", "or"]), x["name"]))
+            c["fields"].append(("remotes", "l", y["name"]))
+
+
+# A small fixed family of multi-module layouts: mutually referencing dataclasses in two / three modules whose
+# cross-module names are visible under TYPE_CHECKING only (one such name; two in one class; two, one of them inherited;
+# three; a collection of and a reference to the same foreign class).
+SPLIT_FAMILY = [
+    # the two-module "garage": Car needs Engine and Wheel (both TYPE_CHECKING-only), the parts import Car for real
+    "(m (fut T) (ord Car Engine Wheel) (ord2 Wheel Car Engine) (enums) (c Car - (title s str) (engine or Engine) "
+    "(wheels l Wheel)) (c Engine - (power s int) (car or Car)) (c Wheel - (size s int) (car or Car)) (split R 0 1 1))",
+    # every cross reference lazy, in both directions, registration order reversed
+    "(m (fut T) (ord Wheel Engine Car) (ord2 Engine Car Wheel) (enums) (c Car - (title s str) (engine or Engine) "
+    "(wheels l Wheel)) (c Engine - (power s int) (car or Car)) (c Wheel - (size s int) (car r Car)) (split T 0 1 1))",
+    # one lazy name only
+    "(m (fut T) (ord Owner Item) (ord2 Item Owner) (enums) (c Owner - (count s int) (items l Item)) "
+    "(c Item - (size s float)) (split T 0 1))",
+    # two lazy names, one of them on the inherited field of a base that lives in another module
+    "(m (fut T) (ord Node Link Body World) (ord2 World Body Link Node) (enums) (c Node - (x s int) (link or Link)) "
+    "(c Link - (weight s float) (left r Node)) (c Body Node (world or World) (peers l Link)) "
+    "(c World - (title s str) (nodes l Node)) (split T 0 1 1 2))",
+    # three modules, three lazy names in one class
+    "(m (fut T) (ord Robot Arm Wheel Pose) (ord2 Pose Wheel Arm Robot) (enums Mode) (c Robot - (mode e Mode) "
+    "(arm r Arm) (wheels l Wheel) (pose or Pose)) (c Arm - (size s int) (owner or Robot)) "
+    "(c Wheel - (mass o float)) (c Pose - (when d) (robot or Robot)) (split T 0 1 2 2))",
+]
+
+
+def _tags(d: dict, shape: str):
+    tags = [shape, "classes=%d" % len(d["classes"]), "fut" if d["fut"] else "nofut"]
+    kinds = {k for c in d["classes"] for _, k, _ in c["fields"]}
+    tags += ["kind:" + k for k in sorted(kinds)]
+    if any(c["base"] for c in d["classes"]):
+        tags.append("inheritance")
+    if is_split(d):
+        by = {c["name"]: c["part"] for c in d["classes"]}
+        lazy = max((len({a for _, k, a in c["fields"] if k in ("r", "or", "l") and by.get(a, c["part"]) != c["part"]})
+                    for c in d["classes"]), default=0)
+        tags += ["modules=%d" % len(set(by.values())), "cross-module-names-in-one-class=%d" % min(lazy, 3)]
+    return tuple(tags)
+
+
 def generate(rng, tier, n):
-    cases = []
+    cases = [Case(show_case(parse_case(l)), _tags(parse_case(l), "split-family"), "exhaustive") for l in SPLIT_FAMILY]
     for i in range(n):
         shape = SHAPES[i % len(SHAPES)] if i < 2 * len(SHAPES) else rng.choice(SHAPES)
         d = _random_model(rng, shape)
-        tags = [shape, "classes=%d" % len(d["classes"]), "fut" if d["fut"] else "nofut"]
-        kinds = {k for c in d["classes"] for _, k, _ in c["fields"]}
-        tags += ["kind:" + k for k in sorted(kinds)]
-        if any(c["base"] for c in d["classes"]):
-            tags.append("inheritance")
-        cases.append(Case(show_case(d), tuple(tags), "random"))
+        # every third model (with at least two classes) is laid out over several modules
+        if len(d["classes"]) >= 2 and i % 3 == 1:
+            _assign_parts(rng, d)
+        cases.append(Case(show_case(d), _tags(d, shape), "random"))
     return cases
 
 
@@ -654,6 +795,11 @@ def shrink(case):
         dd["enums"] = [e for e in dd["enums"] if e in used]
         return Case(show_case(dd), case.tags, "shrink")
 
+    if is_split(d):
+        dd = json.loads(json.dumps(d))
+        for c in dd["classes"]:
+            c["part"] = 0
+        out.append(mk(dd))
     for nme in names:
         # drop a class nobody needs
         needed = any(c["base"] == nme or any(a == nme and k in ("r", "or", "l") for _, k, a in c["fields"])
@@ -671,7 +817,7 @@ def shrink(case):
             dd = json.loads(json.dumps(d))
             dd["classes"][ci]["base"] = None
             out.append(mk(dd))
-    if d["fut"]:
+    if d["fut"] and not is_split(d):
         dd = json.loads(json.dumps(d))
         dd["fut"] = False
         out.append(mk(dd))
